@@ -112,11 +112,20 @@ structure Tally where
   content : Nat := 0
   compared : Nat := 0
 
+/-- a contextual tuple whose condition is declared only on a restriction of ANOTHER shape of its user type
+(`user:y with c1` where the relation allows `user` and `user:* with c1`): `validateCondition` accepts it,
+the weighted-graph engine's `validateCtxTupleInModel` does not -/
+def looseCondition (m : Vocab.Model) (t : Tuple) : Bool :=
+  t.cond ≠ "" &&
+  match m.findRel (typeOf t.obj) t.rel with
+  | none => false
+  | some rd => !rd.restrs.any (fun r => restrMatchesUser r t.user && r.cond = t.cond)
+
 def judge (c : C04Case) (eng : String) (idx : Nat) (st : Step) (pair : String) (acc : Tally) : Tally :=
   let unstable := pair.endsWith "~"
   let p := if unstable then (pair.dropEnd 1).toString else pair
   match p.splitOn "/" with
-  | [a, b] =>
+  | [a, pl, b] =>
     let acc := { acc with compared := acc.compared + 1 }
     if a = "DL" then acc else
     let acc :=
@@ -128,11 +137,11 @@ def judge (c : C04Case) (eng : String) (idx : Nat) (st : Step) (pair : String) (
           let mref := renderRes (Expand.execute c.model (c.base ++ ctxOf c st.sel) [] rq.obj rq.rel)
           let msplit := renderRes (Expand.execute c.model c.base (ctxOf c st.sel) rq.obj rq.rel)
           if b ≠ mref then { acc with diffs := s!"{eng} step {idx} expand {rq.obj}#{rq.rel} ref: got [{b}] want [{mref}]" :: acc.diffs }
-          else if a ≠ msplit then { acc with diffs := s!"{eng} step {idx} expand {rq.obj}#{rq.rel} split: got [{a}] want [{msplit}]" :: acc.diffs }
+          else if pl ≠ msplit then { acc with diffs := s!"{eng} step {idx} expand {rq.obj}#{rq.rel} split: got [{pl}] want [{msplit}]" :: acc.diffs }
           else acc
         | [] => acc
       else acc
-    if a = b then
+    if a = b && pl = b then
       let hasContent := st.sel ≠ "n" && !(ctxOf c st.sel).isEmpty &&
         (a = "T" || (a.startsWith "[" && a ≠ "[]") || (a.splitOn ",").contains "T" || (st.kind = "exp" && !a.startsWith "E:"))
       { acc with content := acc.content + (if hasContent then 1 else 0) }
@@ -147,8 +156,14 @@ def judge (c : C04Case) (eng : String) (idx : Nat) (st : Step) (pair : String) (
           | [] => ""
         else ""
       let what := match st.reqs with | (_, rq) :: _ => s!"{rq.obj}#{rq.rel}@{rq.user}" | [] => ""
-      { acc with viols := s!"engine={eng} step {idx} {st.kind} {what} contextual-set={st.sel}: with contextual tuples {a}, with the same tuples stored {b}{diag}" :: acc.viols }
-  | _ => { acc with diffs := s!"unparsable pair {pair}" :: acc.diffs }
+      let tag :=
+        if pl = b then
+          s!"[C04-CACHE engine={eng}] the answer with contextual tuples is right without caches and differs with caches on"
+        else if eng = "v2" && (pl.splitOn ",").contains "E:invalid_tuple" && (ctxOf c st.sel).any (looseCondition c.model) then
+          "[C04-V2-CTXVALID] the weighted-graph engine rejects a contextual tuple that ValidateTupleForWrite accepts (its condition is declared only on a restriction of another shape of the same user type)"
+        else "[C04-SEMANTIC] contextual tuples are not treated like stored tuples"
+      { acc with viols := s!"{tag}: engine={eng} step {idx} {st.kind} {what} contextual-set={st.sel}: with contextual tuples {a} (caches on) / {pl} (no caches), with the same tuples stored {b}{diag}" :: acc.viols }
+  | _ => { acc with diffs := s!"unparsable answer {pair}" :: acc.diffs }
 
 def step (c impl : String) : String :=
   match parseC04 c with
